@@ -41,7 +41,11 @@ def codeType2Portable(code, version_tuple=PYTHON_VERSION_TRIPLE):
         raise TypeError(
             f"parameter expected to be a types.CodeType type; is {type(code)} instead"
         )
-    line_table_field = "co_lnotab" if hasattr(code, "co_lnotab") else "co_linetable"
+    # From 3.10 on a native code object has both; co_lnotab is then only a
+    # (deprecated) view computed from the real table, co_linetable.
+    line_table_field = (
+        "co_linetable" if hasattr(code, "co_linetable") else "co_lnotab"
+    )
     line_table = getattr(code, line_table_field)
     if version_tuple >= (3, 0):
         if version_tuple < (3, 8):
